@@ -61,7 +61,7 @@ func colAlts() []colAlt {
 		{label: "Profiles", typ: "Profiles", declB: "type Profiles []Pos2\n\ntype Pos2 struct {\n\tLabel string\n\tX     int\n}\n"},
 		{label: "Shape", typ: "Shape", declB: tblUnion},
 		{label: "Shapes", typ: "Shapes", declB: tblUnion + "\ntype Shapes []Shape\n"},
-		{label: "Drawing", typ: "Drawing", declB: tblUnion + "\ntype Drawing struct {\n\tMain  Shape\n\tMood  Mood\n\tRank  Role\n\tExtra map[string]Circle\n}\n"},
+		{label: "Drawing", typ: "Drawing", declB: tblUnion + "\ntype Drawing struct {\n\tMain  Shape\n\tMood  Mood\n\tRank  Role\n\tNote  string `json:\"note,omitempty\"`\n\tCount int `json:\",omitempty\"`\n\tExtra map[string]Circle\n}\n"},
 		{label: "Scene", typ: "Scene", declB: tblUnion + "\ntype Drawable interface {\n\tisDrawable()\n}\n\ntype Text struct {\n\tS string\n}\n\nfunc (Circle) isDrawable() {}\nfunc (Text) isDrawable()   {}\n\ntype Drawables []Drawable\n\ntype Scene struct {\n\tMain  Shape\n\tExtra Drawables\n}\n"},
 		{label: "sql.NullInt64", typ: "sql.NullInt64"},
 		{label: "sql.NullString", typ: "sql.NullString"},
@@ -70,6 +70,7 @@ func colAlts() []colAlt {
 		{label: "sql.NullFloat64", typ: "sql.NullFloat64"},
 		{label: "OptIdTeam", typ: "OptIdTeam", declB: "type OptIdTeam struct {\n\tValid bool\n\tID    IdTeam\n}\n"},
 		{label: "OptIdTeam-reversed", typ: "OptIdTeam", declB: "type OptIdTeam struct {\n\tID    IdTeam\n\tValid bool\n}\n"},
+		{label: "OptTags", typ: "OptTags", declB: "type OptTags struct {\n\tValid bool\n\tL     []string\n}\n"},
 		{label: "OptDate", typ: "OptDate", declB: tblDate + "\ntype OptDate struct {\n\tD     Date\n\tValid bool\n}\n"},
 		{label: "Role", typ: "Role"},
 		{label: "Mood", typ: "Mood"},
@@ -155,7 +156,7 @@ func TablesWith(c explore.Chooser, defaultCol string) *prog.Program {
 	colName := s.Pick("col.name", "Slot", "slot", "SlotValue", "X")
 	fkForm := s.Pick("fk.form", "id-type-prefix", "id-type-suffix", "tag-int64", "tag-nullable", "nullable-wrapper-no-tag", "self-reference", "unknown-target", "self-reference-tagged")
 	onDelete := s.Pick("fk.on-delete", "", "CASCADE", "SET NULL")
-	guard := s.Pick("guard", "none", "literal", "enum-placeholder", "unexported-literal", "string-enum-placeholder", "literal-before-id")
+	guard := s.Pick("guard", "none", "literal", "enum-placeholder", "unexported-literal", "string-enum-placeholder", "literal-before-id", "two-literals")
 	userDir := s.Pick("user.directive", userDirectives...)
 	linkDir := s.Pick("link.directive", linkDirectives...)
 	style := s.Pick("decl.style", "separate", "grouped-spec-docs", "grouped-group-doc", "plain-comment-between", "directive-on-neighbour", "comment-after-directive")
@@ -164,17 +165,17 @@ func TablesWith(c explore.Chooser, defaultCol string) *prog.Program {
 	teamSlot := s.Pick("team.slot", "none", "same-column")
 	roleForm := s.Pick("role.form", "unexported-tail", "unexported-sentinel", "unexported-duplicate")
 	dirtyFirst := s.Pick("user.unexported-first", "no", "yes")
-	linkCol := s.Pick("link.extra-col", "none", "composite", "array")
+	linkCol := s.Pick("link.extra-col", "none", "composite", "array", "json")
 
 	var b, ext strings.Builder
 	b.WriteString("type IdUser int64\n\ntype UserId int64\n\ntype IdTeam int64\n\ntype TeamId int64\n\ntype IdGhost int64\n\n")
 	switch roleForm {
 	case "unexported-tail":
-		b.WriteString("type Role uint8\n\nconst (\n\tAdmin Role = iota // administrator\n\tMember\n\tguest\n)\n\n")
+		b.WriteString("type Role uint8\n\nconst (\n\tOwner Role = iota // the names are not in value order\n\tAdmin             // administrator\n\tMember\n\tguest\n)\n\n")
 	case "unexported-sentinel": // exported members are 0,1 (iota-like); the unexported one is far away
-		b.WriteString("type Role uint8\n\nconst (\n\tAdmin Role = iota // administrator\n\tMember\n)\n\nconst guest Role = 100\n\n")
+		b.WriteString("type Role uint8\n\nconst (\n\tOwner Role = iota\n\tAdmin             // administrator\n\tMember\n)\n\nconst guest Role = 100\n\n")
 	case "unexported-duplicate":
-		b.WriteString("type Role uint8\n\nconst (\n\tAdmin Role = iota // administrator\n\tMember\n\tSenior\n)\n\nconst guest = Member\n\n")
+		b.WriteString("type Role uint8\n\nconst (\n\tOwner Role = iota\n\tAdmin             // administrator\n\tMember\n\tSenior\n)\n\nconst guest = Member\n\n")
 	}
 	b.WriteString("type Mood string\n\nconst (\n\tHappy Mood = \"happy\"\n\tSad   Mood = \"sa d\"\n\tNamed Mood = \"User\" // a value spelled like a table struct\n\tWordy Mood = \"a mood whose description is so long that it does not fit in seventy-two characters at all\"\n)\n\n")
 	b.WriteString(col.declB)
@@ -194,6 +195,8 @@ func TablesWith(c explore.Chooser, defaultCol string) *prog.Program {
 	switch guard {
 	case "literal-before-id":
 		uf = append([]string{"\tKind int `gomacro-sql-guard:\"7\"`"}, uf...)
+	case "two-literals":
+		uf = append(uf, "\tKind int `gomacro-sql-guard:\"7\"`", "\tVersion int `gomacro-sql-guard:\"9\"`")
 	case "literal":
 		uf = append(uf, "\tKind int `gomacro-sql-guard:\"7\"`")
 	case "enum-placeholder":
@@ -277,6 +280,9 @@ func TablesWith(c explore.Chooser, defaultCol string) *prog.Program {
 	case "array":
 		b.WriteString("type Marks []int64\n\n")
 		mf = append(mf, "\tMarks Marks")
+	case "json":
+		b.WriteString("type Rights map[string]bool\n\n")
+		mf = append(mf, "\tRights Rights")
 	}
 	member := "type Membership struct {\n" + strings.Join(mf, "\n") + "\n}"
 
